@@ -1,5 +1,4 @@
 SPECIFICATION Spec
-CONSTRAINT Track
-INVARIANT TypeOK
+CONSTRAINT TrackOk
 POSTCONDITION Accepted
 CHECK_DEADLOCK FALSE
